@@ -329,3 +329,18 @@ pub fn revive_uuid(w: &mut QueryServerWriteTransaction<'_>, u: Uuid) -> Result<(
 pub fn internal_identity() -> Identity {
     Identity::from_internal()
 }
+
+// ------------------------------------------------------------------ C48: the migration data of the target level
+
+/// The entries the upgrade to DOMAIN_TGT_LEVEL asserts with `internal_migrate_or_create` (phases 3-7 of the
+/// target level's migration data), with the level they belong to.  TRUSTED INPUT of C48: the driver only uses
+/// it to choose WHICH stored values of built-in entries it removes before the upgrade.
+pub fn migration_templates_target() -> (DomainVersion, Vec<EntryInitNew>) {
+    use crate::migration_data::dl_1_12 as dl_target;
+    let mut v = dl_target::phase_3_key_provider();
+    v.extend(dl_target::phase_4_system_entries());
+    v.extend(dl_target::phase_5_builtin_admin_entries().expect("phase 5"));
+    v.extend(dl_target::phase_6_builtin_non_admin_entries().expect("phase 6"));
+    v.extend(dl_target::phase_7_builtin_access_control_profiles());
+    (DOMAIN_LEVEL_1_12, v)
+}
